@@ -78,7 +78,7 @@ func (t *gType) has(f string) bool {
 	return false
 }
 
-func descSDL(d string) string {
+func mgDescSDL(d string) string {
 	if d == "" {
 		return ""
 	}
@@ -91,7 +91,7 @@ func (s *gService) SDL() string {
 		b.WriteString(d + "\n")
 	}
 	for _, t := range s.Types {
-		b.WriteString(descSDL(t.Desc))
+		b.WriteString(mgDescSDL(t.Desc))
 		switch t.Kind {
 		case "scalar":
 			fmt.Fprintf(&b, "scalar %s%s\n", t.Name, t.Dirs)
@@ -111,7 +111,7 @@ func (s *gService) SDL() string {
 			}
 			b.WriteString(t.Dirs + " {\n")
 			for _, f := range t.Fields {
-				b.WriteString("  " + descSDL(f.Desc) + f.Name)
+				b.WriteString("  " + mgDescSDL(f.Desc) + f.Name)
 				if len(f.Args) > 0 {
 					as := make([]string, len(f.Args))
 					for i, a := range f.Args {
@@ -156,7 +156,7 @@ func (g *fedGen) subset(min, max int) []int {
 	return p
 }
 
-func wrapType(r *hx.Rand, base string) string {
+func mgWrapType(r *hx.Rand, base string) string {
 	switch r.Intn(8) {
 	case 0, 1, 2:
 		return base
@@ -173,11 +173,11 @@ func wrapType(r *hx.Rand, base string) string {
 	}
 }
 
-var builtinScalars = []string{"Int", "String", "Boolean", "Float", "ID"}
+var mgBuiltinScalars = []string{"Int", "String", "Boolean", "Float", "ID"}
 
 // outputBases: names usable as a field type inside service s
 func (g *fedGen) outputBases(s *gService) []string {
-	out := append([]string{}, builtinScalars...)
+	out := append([]string{}, mgBuiltinScalars...)
 	for _, t := range s.Types {
 		if t.Kind != "input" && t.Name != "Query" && t.Name != "Mutation" && t.Name != "Subscription" {
 			out = append(out, t.Name)
@@ -187,7 +187,7 @@ func (g *fedGen) outputBases(s *gService) []string {
 }
 
 func (g *fedGen) inputBases(s *gService) []string {
-	out := append([]string{}, builtinScalars...)
+	out := append([]string{}, mgBuiltinScalars...)
 	for _, t := range s.Types {
 		if t.Kind == "input" || t.Kind == "enum" || t.Kind == "scalar" {
 			out = append(out, t.Name)
@@ -220,7 +220,7 @@ func (g *fedGen) args(s *gService) []gArg {
 	var out []gArg
 	for k := 0; k < []int{0, 0, 0, 1, 1, 2}[g.r.Intn(6)]; k++ {
 		base := hx.Pick(g.r, g.inputBases(s))
-		w := wrapType(g.r, base)
+		w := mgWrapType(g.r, base)
 		a := gArg{Name: fmt.Sprintf("a%d", k), Type: w}
 		if !strings.HasSuffix(w, "!") || g.r.Chance(1, 3) {
 			a.Default = g.defaultFor(s, base, w)
@@ -231,7 +231,7 @@ func (g *fedGen) args(s *gService) []gArg {
 }
 
 func (g *fedGen) field(s *gService, name string, bases []string) gField {
-	f := gField{Name: name, Type: wrapType(g.r, hx.Pick(g.r, bases)), Args: g.args(s)}
+	f := gField{Name: name, Type: mgWrapType(g.r, hx.Pick(g.r, bases)), Args: g.args(s)}
 	if g.r.Chance(1, 6) {
 		f.Desc = "about " + name
 	}
@@ -514,7 +514,7 @@ func (g *fedGen) generate() {
 				g.tag("value type with id")
 			}
 			for k := 0; k < r.Range(1, 3); k++ {
-				f := gField{Name: fmt.Sprintf("%s_s%d", strings.ToLower(sh.name), k), Type: wrapType(r, hx.Pick(r, bases))}
+				f := gField{Name: fmt.Sprintf("%s_s%d", strings.ToLower(sh.name), k), Type: mgWrapType(r, hx.Pick(r, bases))}
 				if r.Chance(1, 3) {
 					f.Args = []gArg{{Name: "a0", Type: "Int", Default: "3"}}
 				}
@@ -741,8 +741,8 @@ func (g *fedGen) inject(kind string) {
 	}
 }
 
-// genCase draws one case; inject == "" for a mergeable base.
-func genCase(r *hx.Rand, inject string) mgCase {
+// mgGenCase draws one case; inject == "" for a mergeable base.
+func mgGenCase(r *hx.Rand, inject string) mgCase {
 	g := &fedGen{r: r, tags: map[string]bool{}}
 	g.n = []int{1, 2, 2, 2, 2, 3, 3, 3, 4, 4, 5}[r.Intn(11)]
 	if inject != "" && g.n < 2 {
@@ -782,7 +782,7 @@ func genCase(r *hx.Rand, inject string) mgCase {
 // ---------------------------------------------------------------------------------------------
 // loading, canonical items
 
-func loadInputs(c mgCase, perm []int) ([]*merger.MergeInput, error) {
+func mgLoadInputs(c mgCase, perm []int) ([]*merger.MergeInput, error) {
 	out := make([]*merger.MergeInput, len(perm))
 	for k, i := range perm {
 		s, err := gqlparser.LoadSchema(&ast.Source{Name: fmt.Sprintf("s%d", i), Input: c.SDL[i]})
@@ -799,14 +799,14 @@ func loadInputs(c mgCase, perm []int) ([]*merger.MergeInput, error) {
 	return out, nil
 }
 
-func valStr(v *ast.Value) string {
+func mgValStr(v *ast.Value) string {
 	if v == nil {
 		return "-"
 	}
 	return v.String()
 }
 
-func dirUseStr(d *ast.Directive) string {
+func mgDirUseStr(d *ast.Directive) string {
 	as := make([]string, len(d.Arguments))
 	for i, a := range d.Arguments {
 		as[i] = a.Name + ":"
@@ -817,11 +817,11 @@ func dirUseStr(d *ast.Directive) string {
 	return d.Name + "(" + strings.Join(as, ",") + ")"
 }
 
-// schemaItems: the canonical view of a schema (what survives print+reload): one string per
+// mgSchemaItems: the canonical view of a schema (what survives print+reload): one string per
 // type / field / argument / enum value / union member / implemented interface / directive
 // definition, plus descriptions and applied directives under separate prefixes. Definitions
 // flagged BuiltIn and fields named __… are left out. Sorted.
-func schemaItems(s *ast.Schema) []string {
+func mgSchemaItems(s *ast.Schema) []string {
 	var out []string
 	for name, d := range s.Types {
 		if d.BuiltIn {
@@ -832,7 +832,7 @@ func schemaItems(s *ast.Schema) []string {
 			out = append(out, "TD|"+name+"|"+d.Description)
 		}
 		for _, u := range d.Directives {
-			out = append(out, "TU|"+name+"|"+dirUseStr(u))
+			out = append(out, "TU|"+name+"|"+mgDirUseStr(u))
 		}
 		for _, i := range d.Interfaces {
 			out = append(out, "I|"+name+"|"+i)
@@ -847,22 +847,22 @@ func schemaItems(s *ast.Schema) []string {
 			if strings.HasPrefix(f.Name, "__") {
 				continue
 			}
-			out = append(out, "F|"+name+"|"+f.Name+"|"+f.Type.String()+"|"+valStr(f.DefaultValue))
+			out = append(out, "F|"+name+"|"+f.Name+"|"+f.Type.String()+"|"+mgValStr(f.DefaultValue))
 			if f.Description != "" {
 				out = append(out, "FD|"+name+"|"+f.Name+"|"+f.Description)
 			}
 			for _, u := range f.Directives {
-				out = append(out, "FU|"+name+"|"+f.Name+"|"+dirUseStr(u))
+				out = append(out, "FU|"+name+"|"+f.Name+"|"+mgDirUseStr(u))
 			}
 			for _, a := range f.Arguments {
-				out = append(out, "A|"+name+"|"+f.Name+"|"+a.Name+"|"+a.Type.String()+"|"+valStr(a.DefaultValue))
+				out = append(out, "A|"+name+"|"+f.Name+"|"+a.Name+"|"+a.Type.String()+"|"+mgValStr(a.DefaultValue))
 			}
 		}
 	}
 	for name, d := range s.Directives {
 		as := make([]string, len(d.Arguments))
 		for i, a := range d.Arguments {
-			as[i] = a.Name + ":" + a.Type.String() + "=" + valStr(a.DefaultValue)
+			as[i] = a.Name + ":" + a.Type.String() + "=" + mgValStr(a.DefaultValue)
 		}
 		ls := make([]string, len(d.Locations))
 		for i, l := range d.Locations {
@@ -873,10 +873,10 @@ func schemaItems(s *ast.Schema) []string {
 		out = append(out, fmt.Sprintf("D|%s|%s|%s|%v", name, strings.Join(as, ","), strings.Join(ls, ","), d.IsRepeatable))
 	}
 	sort.Strings(out)
-	return dedupSorted(out)
+	return mgDedupSorted(out)
 }
 
-func dedupSorted(xs []string) []string {
+func mgDedupSorted(xs []string) []string {
 	out := xs[:0]
 	for i, x := range xs {
 		if i == 0 || x != xs[i-1] {
@@ -887,7 +887,7 @@ func dedupSorted(xs []string) []string {
 }
 
 // core items: what C03's statement talks about (no descriptions, no applied directives)
-func coreItems(items []string) []string {
+func mgCoreItems(items []string) []string {
 	var out []string
 	for _, it := range items {
 		switch it[:strings.Index(it, "|")] {
@@ -898,7 +898,7 @@ func coreItems(items []string) []string {
 	return out
 }
 
-func tumItems(tm merger.TypeURLMap) []string {
+func mgTumItems(tm merger.TypeURLMap) []string {
 	var out []string
 	for T, p := range tm {
 		out = append(out, fmt.Sprintf("N|%s|%v", T, p.IsImplementsNode))
@@ -926,7 +926,7 @@ type mgOutcome struct {
 	tm     merger.TypeURLMap
 }
 
-func errKind(msg string) string {
+func mgErrKind(msg string) string {
 	for _, p := range [][2]string{
 		{"no source schemas", "no-source-schemas"}, {"name collision:", "name-collision"}, {"union collision:", "union-collision"},
 		{"interface collision:", "interface-collision"}, {"node interface collision:", "node-interface-collision"},
@@ -941,7 +941,7 @@ func errKind(msg string) string {
 
 func runMerger(c mgCase, perm []int) (o mgOutcome) {
 	o.Perm = perm
-	in, err := loadInputs(c, perm)
+	in, err := mgLoadInputs(c, perm)
 	if err != nil {
 		o.Outcome, o.Err = "invalid-input", err.Error()
 		return
@@ -957,13 +957,13 @@ func runMerger(c mgCase, perm []int) (o mgOutcome) {
 	}
 	res, err := m.Merge(in)
 	if err != nil {
-		o.Outcome, o.Err, o.Kind = "error", err.Error(), errKind(err.Error())
+		o.Outcome, o.Err, o.Kind = "error", err.Error(), mgErrKind(err.Error())
 		return
 	}
 	o.Outcome = "ok"
 	o.schema, o.tm = res.Schema, res.TypeURLMap
-	o.Items = schemaItems(res.Schema)
-	o.Tum = tumItems(res.TypeURLMap)
+	o.Items = mgSchemaItems(res.Schema)
+	o.Tum = mgTumItems(res.TypeURLMap)
 	o.URLs = hx.SortedStrings(res.TypeURLMap.GetURLs())
 	return
 }
@@ -1018,7 +1018,7 @@ type mgModel struct {
 	Raw     map[string]interface{}
 }
 
-func strList(v interface{}) []string {
+func mgStrList(v interface{}) []string {
 	arr, _ := v.([]interface{})
 	out := make([]string, 0, len(arr))
 	for _, x := range arr {
@@ -1030,7 +1030,7 @@ func strList(v interface{}) []string {
 
 // callModel runs the Lean model on the same (freshly loaded, permuted) inputs.
 func callModel(ctx *Ctx, c mgCase, perm []int, qs [][]string) (*mgModel, error) {
-	in, err := loadInputs(c, perm)
+	in, err := mgLoadInputs(c, perm)
 	if err != nil {
 		return nil, err
 	}
@@ -1045,10 +1045,10 @@ func callModel(ctx *Ctx, c mgCase, perm []int, qs [][]string) (*mgModel, error) 
 	m := &mgModel{Raw: res}
 	m.Outcome, _ = res["outcome"].(string)
 	m.Kind, _ = res["kind"].(string)
-	m.Kinds = strList(res["kinds"])
-	m.Items = dedupSorted(hx.SortedStrings(strList(res["items"])))
-	m.Tum = hx.SortedStrings(strList(res["tumItems"]))
-	m.URLs = hx.SortedStrings(strList(res["urls"]))
+	m.Kinds = mgStrList(res["kinds"])
+	m.Items = mgDedupSorted(hx.SortedStrings(mgStrList(res["items"])))
+	m.Tum = hx.SortedStrings(mgStrList(res["tumItems"]))
+	m.URLs = hx.SortedStrings(mgStrList(res["urls"]))
 	ga, _ := res["geturl"].([]interface{})
 	for _, a := range ga {
 		am, _ := a.(map[string]interface{})
@@ -1063,13 +1063,13 @@ func callModel(ctx *Ctx, c mgCase, perm []int, qs [][]string) (*mgModel, error) 
 		for _, e := range ft {
 			em, _ := e.(map[string]interface{})
 			t, _ := em["type"].(string)
-			m.ForType[t] = strList(em["urls"])
+			m.ForType[t] = mgStrList(em["urls"])
 		}
 	}
 	return m, nil
 }
 
-func eqStrs(a, b []string) bool {
+func mgEqStrs(a, b []string) bool {
 	if len(a) != len(b) {
 		return false
 	}
@@ -1081,7 +1081,7 @@ func eqStrs(a, b []string) bool {
 	return true
 }
 
-func diffStrs(a, b []string) (onlyA, onlyB []string) {
+func mgDiffStrs(a, b []string) (onlyA, onlyB []string) {
 	ma, mb := map[string]bool{}, map[string]bool{}
 	for _, x := range a {
 		ma[x] = true
@@ -1151,23 +1151,23 @@ func compareModel(ctx *Ctx, c mgCase, o mgOutcome) (string, interface{}) {
 		if m.Outcome != "ok" {
 			return "real merger accepts, model says " + m.Outcome + " " + m.Kind, m.Raw
 		}
-		if !eqStrs(o.Items, m.Items) {
-			a, b := diffStrs(o.Items, m.Items)
+		if !mgEqStrs(o.Items, m.Items) {
+			a, b := mgDiffStrs(o.Items, m.Items)
 			return fmt.Sprintf("merged schema differs: only impl %v, only model %v", a, b), nil
 		}
-		if !eqStrs(o.Tum, m.Tum) {
-			a, b := diffStrs(o.Tum, m.Tum)
+		if !mgEqStrs(o.Tum, m.Tum) {
+			a, b := mgDiffStrs(o.Tum, m.Tum)
 			return fmt.Sprintf("TypeURLMap differs: only impl %v, only model %v", a, b), nil
 		}
-		if !eqStrs(o.URLs, m.URLs) {
+		if !mgEqStrs(o.URLs, m.URLs) {
 			return fmt.Sprintf("GetURLs differs: impl %v model %v", o.URLs, m.URLs), nil
 		}
-		if g := implGetURL(o, qs); !eqStrs(g, m.GetURL) {
+		if g := implGetURL(o, qs); !mgEqStrs(g, m.GetURL) {
 			return fmt.Sprintf("GetURL differs on %v: impl %v model %v", qs, g, m.GetURL), nil
 		}
 		for T := range o.tm {
 			ft, _ := o.tm.GetForType(T)
-			if !eqStrs(ft, m.ForType[T]) && !(len(ft) == 0 && len(m.ForType[T]) == 0) {
+			if !mgEqStrs(ft, m.ForType[T]) && !(len(ft) == 0 && len(m.ForType[T]) == 0) {
 				return fmt.Sprintf("GetForType(%s) differs: impl %v model %v", T, ft, m.ForType[T]), nil
 			}
 		}
@@ -1178,7 +1178,7 @@ func compareModel(ctx *Ctx, c mgCase, o mgOutcome) (string, interface{}) {
 // ---------------------------------------------------------------------------------------------
 // permutations of a case
 
-func casePerms(c mgCase, r *hx.Rand) [][]int {
+func mgCasePerms(c mgCase, r *hx.Rand) [][]int {
 	n := len(c.SDL)
 	if n <= 4 {
 		return permutations(n)
@@ -1195,19 +1195,19 @@ func casePerms(c mgCase, r *hx.Rand) [][]int {
 	return out
 }
 
-func inputItems(c mgCase) ([][]string, []*ast.Schema, error) {
+func mgInputItems(c mgCase) ([][]string, []*ast.Schema, error) {
 	id := make([]int, len(c.SDL))
 	for i := range id {
 		id[i] = i
 	}
-	in, err := loadInputs(c, id)
+	in, err := mgLoadInputs(c, id)
 	if err != nil {
 		return nil, nil, err
 	}
 	items := make([][]string, len(in))
 	schemas := make([]*ast.Schema, len(in))
 	for i, x := range in {
-		items[i] = schemaItems(x.Schema)
+		items[i] = mgSchemaItems(x.Schema)
 		// a "broken remote union" declares its members through PossibleTypes only
 		for n, d := range x.Schema.Types {
 			if d.Kind == ast.Union && len(d.Types) == 0 {
@@ -1216,13 +1216,13 @@ func inputItems(c mgCase) ([][]string, []*ast.Schema, error) {
 				}
 			}
 		}
-		items[i] = dedupSorted(hx.SortedStrings(items[i]))
+		items[i] = mgDedupSorted(hx.SortedStrings(items[i]))
 		schemas[i] = x.Schema
 	}
 	return items, schemas, nil
 }
 
-func countCase(ctx *Ctx, c mgCase, outs []mgOutcome) {
+func mgCountCase(ctx *Ctx, c mgCase, outs []mgOutcome) {
 	ctx.Rep.Count(fmt.Sprintf("services=%d", len(c.SDL)))
 	ctx.Rep.Count("mode=" + c.Mode)
 	if c.Inject != "" {
@@ -1242,13 +1242,13 @@ func countCase(ctx *Ctx, c mgCase, outs []mgOutcome) {
 	}
 }
 
-// failSet keeps the first failure of every category of one case (a defect shows under many permutations).
-type failSet struct {
+// mgFailSet keeps the first failure of every category of one case (a defect shows under many permutations).
+type mgFailSet struct {
 	seen map[string]bool
 	list []hx.Failure
 }
 
-func (fs *failSet) add(cat string, f hx.Failure) {
+func (fs *mgFailSet) add(cat string, f hx.Failure) {
 	if fs.seen == nil {
 		fs.seen = map[string]bool{}
 	}
@@ -1259,7 +1259,7 @@ func (fs *failSet) add(cat string, f hx.Failure) {
 	fs.list = append(fs.list, f)
 }
 
-func identityOutcome(outs []mgOutcome) *mgOutcome {
+func mgIdentityOutcome(outs []mgOutcome) *mgOutcome {
 	for k := range outs {
 		id := true
 		for i, x := range outs[k].Perm {
